@@ -1292,6 +1292,24 @@ def c19_task(task):
             break
         if a.count('"iters":') and any('"iters":%d' % k in a for k in range(3, 40)):
             out["distinct"].append(sha(th.get("text") or emit(th), a)[:16])
+    if task.get("memcheck") and not out["violations"]:
+        # sanitizer shard: the component-linked driver under valgrind memcheck (the struct of references
+        # crossing the extern "Rust" boundary by value is where a divergence of the two declarations
+        # would become a wild read/write); errors are fatal (exit 97), leaks are not judged
+        sub = hists[:task["memcheck"]]
+        s3, h3, raw3, e3 = driver.run_script(cmeta, sub, timeout=900, script_name="script_c19_memcheck.txt",
+                                              wrapper=("valgrind", "-q", "--error-exitcode=97", "--errors-for-leak-kinds=none", "--leak-check=no"))
+        if s3 == "ok":
+            out["evaluations"] += 1
+            _cnt(out, "memcheck_runs_clean")
+            _cnt(out, "memcheck_histories", len(sub))
+            ref3 = '{"e":"reset"'.join(raw1.split('{"e":"reset"')[:len(sub) + 1])
+            if raw3.strip() and raw3.split('{"e":"end"')[0].strip() != ref3.split('{"e":"end"')[0].strip():
+                out["violations"].append(_vio("c19:behaviour-under-memcheck", "the component-linked driver gives a different log under valgrind than the module-linked driver natively", th, driver.script_text(sub)))
+        elif s3 == "crash:97":
+            out["violations"].append(_vio("c19:memcheck-error", "valgrind memcheck reports an invalid memory access in the component-linked driver:\n%s" % e3[-2500:], th, driver.script_text(sub), {"valgrind.txt": e3}))
+        else:
+            _inc(out, "memcheck-" + s3.split(":")[0])
     if hists and not out["samples"]:
         out["samples"].append({"theory": (th.get("text") or emit(th))[:800], "history": [" ".join(map(str, o)) for o in hists[0][2]][:30], "components": ncomp})
     return out
@@ -1336,14 +1354,45 @@ def c20_task(task):
     if task.get("valgrind"):
         variants.append(("valgrind", ("valgrind", "-q", "--error-exitcode=0"), env_with()))
     outs = []
+    import time as _time
+    slow = False
     for name, wrapper, env in variants:
+        if slow and name not in ("plain", "repeat"):
+            continue  # heavy theory: keep the run bounded, compare only plain vs repeat
+        t0 = _time.time()
         st, hs, raw, err = driver.run_script(meta, hists, timeout=900 if name == "valgrind" else 40, wrapper=wrapper, env=env, script_name="script_c20.txt")
+        if name == "plain" and _time.time() - t0 > 6:
+            slow = True
+            _cnt(out, "heavy_theories_compared_on_two_runs_only")
         if st != "ok":
             _inc(out, "driver-%s-%s" % (name, st.split(":")[0]))
             if name == "plain":
                 return out  # too heavy for the watchdog: no verdict for this theory
             continue
         outs.append((name, raw))
+    if task.get("asan") and outs and not slow:
+        # sanitizer variant: the same module and the runtime compiled with AddressSanitizer (nightly);
+        # a report is fatal (the process aborts), and the transcript must still equal the plain one
+        from . import build as _build
+        try:
+            artl = _build.build_asan_rtlib()
+            ameta = driver.compile_theory(th, rtlib=artl, rustc=("rustc", "+nightly"), tag="asan",
+                                          extra_rustc=("-Zsanitizer=address", "-Cforce-frame-pointers=yes", "--target", "x86_64-unknown-linux-gnu"))
+        except RuntimeError as e:
+            ameta = {"ok": False, "stage": "asan-rtlib", "stderr": str(e)}
+        if not ameta["ok"]:
+            _inc(out, "asan-build-failed:" + ameta["stage"])
+            out.setdefault("notes", []).append(ameta["stderr"][-500:])
+        else:
+            st, hs, raw, err = driver.run_script(ameta, hists, timeout=300, env=env_with({"ASAN_OPTIONS": "halt_on_error=1:abort_on_error=0:detect_leaks=0:exitcode=98"}), script_name="script_c20.txt")
+            if st == "ok":
+                outs.append(("asan-build", raw))
+                _cnt(out, "asan_runs_clean")
+            elif "AddressSanitizer" in err:
+                out["violations"].append(_vio("c20:asan-report", "AddressSanitizer reports a memory error while the history runs:\n%s" % err[:3000], th, script, {"asan.txt": err}))
+                return out
+            else:
+                _inc(out, "driver-asan-" + st.split(":")[0])
     if len(outs) < 2:
         return out
     base = outs[0]
@@ -1519,7 +1568,7 @@ def c19(tier, replay=None):
     res.assumptions = ["component libraries compiled by the compiler's own rustc invocations (real rustc, opt-level 0)"]
     q = tier == "quick"
     specs = specs_for(tier, 50, 500, PROFILES_ALL)
-    tasks = [{"spec": s, "seed": seed(), "histories": 12 if q else 40} for s in specs]
+    tasks = [{"spec": s, "seed": seed(), "histories": 12 if q else 40, "memcheck": (3 if i % 4 == 0 else 0) if q else (8 if i % 3 == 0 else 0)} for i, s in enumerate(specs)]
     aggregate(res, pmap(c19_task, tasks))
     return res.finish()
 
@@ -1527,13 +1576,13 @@ def c19(tier, replay=None):
 def c20(tier, replay=None):
     res = Result("C20", tier)
     res.rule = ("one evaluation = one pair of fresh-process runs of the same script (ASLR off, padded environment, malloc perturbation, minimal "
-                "environment, plain repeat%s) compared byte-wise on the whole transcript: ids, return values, iteration order of every public "
+                "environment, plain repeat, an AddressSanitizer build of module + runtime for every 6th (quick) / 3rd (thorough) theory%s) compared byte-wise on the whole transcript: ids, return values, iteration order of every public "
                 "iterator and of every private index copy at every condition evaluation; non-trivial = transcript with multi-iteration closes; "
                 "distinct = hash(theory, transcript)" % ("" if tier == "quick" else ", valgrind"))
     res.assumptions = ["the driver and probe themselves use ordered containers only"]
     q = tier == "quick"
-    specs = specs_for(tier, 110, 1200, PROFILES_ALL)
-    tasks = [{"spec": s, "seed": seed(), "histories": 8 if q else 20, "valgrind": (not q) and (i % 10 == 0)} for i, s in enumerate(specs)]
+    specs = specs_for(tier, 80, 1200, PROFILES_ALL)
+    tasks = [{"spec": s, "seed": seed(), "histories": 8 if q else 20, "valgrind": (not q) and (i % 10 == 0), "asan": i % (6 if q else 3) == 0} for i, s in enumerate(specs)]
     aggregate(res, pmap(c20_task, tasks))
     return res.finish()
 
